@@ -75,6 +75,8 @@ PROFILES = {
     "hw":      [4, 2, 5, 15, 1, 22, 3, 6, 36, 1, 2, 1, 1, 1],
     "faulty":  [25, 12, 8, 12, 2, 18, 5, 5, 3, 5, 3, 1, 0, 1],
     "failing": [3, 1, 6, 15, 1, 24, 20, 8, 2, 8, 10, 1, 0, 1],
+    # joins whose parents end differently (one FAILED, one CANCELLED) while other branches still run
+    "failcancel": [3, 1, 4, 30, 1, 10, 24, 2, 1, 2, 22, 0, 0, 0],
 }
 KINDS = ["absent", None, "PENDING", "RUNNING", "FINISHING", "FINISHED", "FAILED", "TIMEDOUT", "HWFAILURE",
          "UNKNOWN", "CANCELLED", "WAITING", "QUEUED", "exotic"]
@@ -154,6 +156,9 @@ def _setup():
 
         def cancel_jobs(self, joblist):
             CTX.events.append(["cancel", sorted(int(j) for j in joblist)])
+            # the scheduler may refuse the cancellation: the request stands all the same
+            if CTX.pin is not None and not CTX.pin.get("cancel_ok", True):
+                return CancellationRecord(CancelCode.ERROR, 1)
             return CancellationRecord(CancelCode.OK, 0)
 
     class ScriptedLocal(object):
@@ -376,7 +381,7 @@ def run_history(nodes, cfg, rng, profile="mixed", max_polls=14, cancel_p=0.04, q
         if scripted_pins is not None:
             sp = scripted_pins[k]
             pin = {"cancel": sp["cancel"], "q": sp["q"], "reports": [list(r) for r in sp["reports"]],
-                   "subs": list(sp["subs"])}
+                   "subs": list(sp["subs"]), "cancel_ok": sp.get("cancel_ok", True)}
         elif chooser is not None:
             cancel = bool(enum.get("cancel")) and not state["cancelled_once"] and chooser.pick(2) == 1
             q = ["OK", "NOJOBS", "ERROR"][chooser.pick(3)] if enum.get("q") else "OK"
@@ -393,6 +398,8 @@ def run_history(nodes, cfg, rng, profile="mixed", max_polls=14, cancel_p=0.04, q
                     q = "NOJOBS"
             pin = {"cancel": cancel, "q": q, "reports": [],
                    "subs": [rng.random() < (0.97 if c.fair else sub_ok_p) for _ in range(rng.choice([0, 4, 8, 12]))]}
+            if cancel:
+                pin["cancel_ok"] = rng.random() < 0.7
         state["cancelled_once"] = state["cancelled_once"] or pin["cancel"]
         c.pin = pin
         c.subs = list(pin["subs"])
@@ -505,4 +512,5 @@ HEADER = "From MWF Require Import Exec.ExecBase Exec.ExecGen Exec.ExecRun Exec.E
 
 
 def pins_of(case):
-    return [{"cancel": p["cancel"], "q": p["q"], "reports": p["reports"], "subs": p["subs"]} for p in case["polls"]]
+    return [dict({"cancel": p["cancel"], "q": p["q"], "reports": p["reports"], "subs": p["subs"]},
+                 **({"cancel_ok": False} if not p.get("cancel_ok", True) else {})) for p in case["polls"]]
